@@ -24,7 +24,11 @@ func (es *ed25519Signer) Algorithm() Algorithm {
 func (es *ed25519Signer) Sign(rand io.Reader, content []byte) ([]byte, error) {
 	// crypto.Hash(0) must be passed as an option.
 	// Reference: https://pkg.go.dev/crypto/ed25519#PrivateKey.Sign
-	return es.key.Sign(rand, content, crypto.Hash(0))
+	sig, err := es.key.Sign(rand, content, crypto.Hash(0))
+	if err != nil {
+		return nil, err
+	}
+	return sig, nil
 }
 
 // ed25519Verifier is a Pure EdDSA based verifier with golang built-in keys.
